@@ -95,8 +95,28 @@ def axes_not_validated(c):
     return (c["op"], _axis_defect(c)) in UNVALIDATED
 
 
+def _join_shapes_agree(c):
+    """NumPy's operand-shape rule of the joining routines (axes assumed valid)."""
+    op = c["op"]; a, b = [list(x) for x in c["shapes"][:2]]
+    def up(s, n): return [1] * (n - len(s)) + s if len(s) < n else s
+    def agree_except(x, y, ax): return len(x) == len(y) and all(i == ax or p == q for i, (p, q) in enumerate(zip(x, y)))
+    if op == "concatenate":
+        ax = c["args"]["axis"]
+        return True if not ax else agree_except(a, b, ax[0] % len(a))
+    if op == "stack": return a == b
+    if op == "hstack": return True if (len(a) == 1 and len(b) == 1) else agree_except(a, b, 1)
+    if op == "vstack": return agree_except(up(a, 2), up(b, 2), 0)
+    if op == "dstack":
+        f = lambda s: [1, s[0], 1] if len(s) == 1 else (s + [1] if len(s) == 2 else s)
+        return agree_except(f(a), f(b), 2)
+    if op == "column_stack":
+        f = lambda s: [s[0], 1] if len(s) == 1 else s
+        return agree_except(f(a), f(b), 1)
+    return True
+
+
 def join_shape_mismatch(c):
-    return c["op"] in ("concatenate", "stack", "hstack", "vstack", "dstack", "column_stack") and not axes_invalid(c)
+    return c["op"] in ("concatenate", "stack", "hstack", "vstack", "dstack", "column_stack") and not axes_invalid(c) and not _join_shapes_agree(c)
 
 
 def repeat_length_mismatch(c):
